@@ -69,7 +69,31 @@ def chachapoly_unit():
                    uses=[poly1305_unit, chacha_unit])
 
 
+KDF_BUILTINS = {
+    # hashlib / hmac enter as oracles (Base/C09_Oracle.v)
+    'secureHMAC': ('o_hmac Orc {2} {0} {1}', ['bytes', 'bytes', 'str'], 'bytes', False),
+    'secureHash': ('o_hash Orc {1} {0}', ['bytes', 'str'], 'bytes', False),
+    'MD5': ('o_hash Orc "md5"%string {0}', ['bytes'], 'bytes', False),
+    'SHA1': ('o_hash Orc "sha1"%string {0}', ['bytes'], 'bytes', False),
+}
+
+
+def kdf_unit():
+    c, m = U + 'cryptomath.py', 'tlslite/mathtls.py'
+    items = [
+        divceil_item(),
+        (FnSig('HKDF_expand', 'HKDF_expand', [('PRK', 'bytes'), ('info', 'bytes'), ('L', 'Z'), ('algorithm', 'str')], 'bytes'), c),
+        (FnSig('P_hash', 'P_hash', [('mac_name', 'str'), ('secret', 'bytes'), ('seed', 'bytes'), ('length', 'Z')], 'bytes',
+               fuel={0: 'length + 1'}), m),
+        (FnSig('PRF', 'PRF', [('secret', 'bytes'), ('label', 'bytes'), ('seed', 'bytes'), ('length', 'Z')], 'bytes'), m),
+        (FnSig('PRF_1_2', 'PRF_1_2', [('secret', 'bytes'), ('label', 'bytes'), ('seed', 'bytes'), ('length', 'Z')], 'bytes'), m),
+        (FnSig('PRF_1_2_SHA384', 'PRF_1_2_SHA384', [('secret', 'bytes'), ('label', 'bytes'), ('seed', 'bytes'), ('length', 'Z')], 'bytes'), m),
+    ]
+    return Module9('C09_KDF', REPO, items, builtins=KDF_BUILTINS, oracle=True)
+
+
 UNITS = {
+    'C09_KDF': kdf_unit,
     'C09_ChaChaPoly': chachapoly_unit,
     'C09_Poly1305': poly1305_unit,
     'C09_ChaCha': chacha_unit,
